@@ -47,6 +47,16 @@ CHECKS = {
         note='Trusts z3, the proxy classes (validated by concrete witness replay of sampled paths on the '
              'unshadowed implementation) and the host contract that approvers are participants.',
         design='3/C04', technique=TECH),
+    'C05': dict(
+        text='The queue is built by the real add_to_queue on a symgit repository with a concrete commit graph, one call per PR '
+             'in entry order; the status of every queue commit is symbolic (5 values). The real handle_merge_queues then runs and '
+             'the refs it leaves on the remote are compared, for all status assignments on each path, with the longest-all-green-'
+             'prefix oracle (hotfix queues independent). Structures and PR destinations are enumerated (5 structures, <= 3 PRs; '
+             'thorough adds a seeded sample of 4-PR queues).',
+        note='Concrete graphs only (every PR branched from its destination, no conflicts). Deviations are classified by kind; '
+             'the reproduced shortest-list defect of _process (F1) is a known finding. Sampled paths and every counterexample '
+             'are replayed on a real repository with /usr/bin/git.',
+        design='3/C05', technique=TECH_GIT),
     'C06': dict(
         text='Every path of the real check_build_status / bypass_build_status is executed on symbolic statuses '
              '(5 values per integration tip, 1-4 tips), symbolic bypass sources and build-key truthiness; z3 decides, per '
@@ -63,6 +73,37 @@ CHECKS = {
         note='Partial: true concurrency inside git is not modelled (the third-party action is serialised before the push); '
              'delete-branch job and Branch.remove guard are checked in C20.',
         design='3/C08', technique=TECH_GIT),
+    'C11': dict(
+        text='Every path of the real jira_checks (check_issue_reference, get_jira_issue, check_project, check_issue_type, '
+             'check_fix_versions, bypass_jira_check) on symbolic flags/memberships and an arbitrary subset of a 6-version '
+             'fixVersions universe; z3 decides outcome class == statement oracle per path; the repository stub raises if touched. '
+             'rx2z3 lemmas: the two version filters and the ticket-key group languages equal their specification.',
+        note='Source names and target-version lists are enumerated (concrete); precedence among several failing conditions '
+             'follows the statement order.',
+        design='3/C11', technique=TECH),
+    'C12': dict(
+        text='The real handle_pull_request runs up to clone_git_repo with a repository stub that raises on any git command and a '
+             'host stub that raises on any write but comments; PR status, wait comment, up to two after_pull_request comments '
+             '(open/merged/declined/unknown/non-numeric ids), dependency statuses and prior greeting are symbolic; z3 decides '
+             'outcome class and number of comments against the statement per path. rx2z3: handled source/destination languages.',
+        note='Partial: the step is history-free, positions inside histories are not explored; what happens after the clone '
+             'belongs to other properties.',
+        design='3/C12', technique=TECH),
+    'C13': dict(
+        text='(a) real process_task/process with a handler raising each exception kind (incl. an exception whose __str__ raises): '
+             'returns, job recorded done with its status, marker cleared, next job still served. (b) real put_job and job __eq__ '
+             'on symbolic keys as a rely/guarantee step with interference (worker get / concurrent put) at every shared access: '
+             'an accepted event stays owed unless an equal job is pending or its evaluation started after acceptance.',
+        note='Partial: interleavings are at the granularity of put_job\'s shared accesses, not bytecode; Flask threading is outside.',
+        design='3/C13', technique=TECH),
+    'C17': dict(
+        text='(a) real AggregatedWorkflowRuns.state on 0-3 (thorough 4) symbolic workflow runs: SUCCESSFUL only if some branch is '
+             'all-green after dropping workflow_dispatch runs and keeping a best run per workflow. (b) green-verdict cache as an '
+             'inductive step from an arbitrary cache content through each real webhook handler / poll with a symbolic host answer. '
+             '(c) real LRUCache against a functional z3 reference under symbolic get/set sequences.',
+        note='Event / status object constructors (schema validation) are stubbed; workflow ids and branches are labelled in order '
+             'of appearance (symmetry reduction).',
+        design='3/C17', technique=TECH),
     'C18': dict(
         text='The live regular expressions of every class tried by branch_factory are translated from their sre parse tree '
              'to z3 regexes; classification (first match in factory order) is proved equal to an independently written '
